@@ -299,6 +299,14 @@ def FS.undo (resolve : Resolver) (fs : FS) (tid : Nat) : FS × Except UErr (List
     | .error e => ({ fs with txn := some { st with failed := true } }, .error e)
     | .ok (S', oids) => ({ fs with txn := some { st with recs := S' } }, .ok oids)
 
+/-- `for tid in tids: storage.undo(tid, txn)`, stopping at the first UndoError -/
+def FS.undoSeq (resolve : Resolver) : FS → List Nat → FS × Option UErr
+  | fs, [] => (fs, none)
+  | fs, tid :: rest =>
+    match fs.undo resolve tid with
+    | (fs', .error e) => (fs', some e)
+    | (fs', .ok _) => FS.undoSeq resolve fs' rest
+
 /-- tpc_vote + tpc_finish (refused by the model after a failed undo call: the real caller aborts) -/
 def FS.finish (fs : FS) : FS :=
   match fs.txn with
